@@ -37,7 +37,7 @@ def configured_beta_specs(ctx):
     from .. import gen
     rng = ctx.sub_rng("c15beta")
     specs = []
-    for c in ("lambda t, d: np.sqrt(0.4 * np.log(d * t ** 2 * 1.6449 / 0.1))", "lambda t, d: 3.0 / np.sqrt(t)", "1.5") + \
+    for c in ("lambda t, d: np.sqrt(0.4 * np.log(d * t ** 2 * 1.6449 / 0.1))", "lambda t, d: 3.0 / np.sqrt(t)", "1.5", "0", "0.0") + \
             (() if ctx.quick else ("lambda t, d: 1.0 + 0.01 * t", "lambda t, d: np.log(t + d)", "0.25")):
         sp = gen.make_spec(rng, D=rng.choice([1, 2]), mode=rng.choice(["det", "decl"]), geom="box", cons=None, opt_loc="inside", target="quad")
         sp["options"] = {"n_search": 32, "max_fun_evals": 40 if sp["mode"] == "det" else 70}
@@ -212,10 +212,13 @@ def checks(ctx, rep):
                                       dict(case, tags={"merged_add": True}))
             elif k == "ACQ":
                 stats["acq"] += 1
-                if e["sqrt_beta_arg"] not in (None, "None"):
+                cfg = (sp.get("np_options") or {}).get("search_acq_fcn") if e["site"] == "es" else None
+                if cfg and eval(cfg, {"np": np})[1] is None:
+                    cfg = None
+                if cfg or e["sqrt_beta_arg"] not in (None, "None"):
                     # a configured confidence parameter (search_acq_fcn = ('acq_LCB', c) / ('acq_LCB', schedule)): the documented meaning of a
-                    # schedule is sqrt_beta(t, D) with t = func_count + 1, the same t as the built-in schedule uses
-                    cfg = (sp.get("np_options") or {}).get("search_acq_fcn") if e["site"] == "es" else None
+                    # schedule is sqrt_beta(t, D) with t = func_count + 1, the same t as the built-in schedule uses.  What counts is what the
+                    # USER configured for the search stage, not what reached the acquisition function
                     if not cfg:
                         continue
                     par = eval(cfg, {"np": np})[1]
